@@ -258,3 +258,101 @@ Example C14_example_cancel :
   hctx (run off ls) = 0 /\ cres (run off ls) = Some 2 /\ requested (run off ls) = 0 /\
   hctx (run off (ls ++ [LDeadline])) = 1.
 Proof. vm_compute. repeat split; auto. Qed.
+
+(* ---- (c) on BOTH send paths of the relay, at the level of the frame bytes ------------------- *)
+(* Vocabulary.  [tfwd_callreq max p appends] (Model/TTLAppend.v) is Relayer.handleCallReq for a
+   call req frame with sized payload [p] once the RelayHost has chosen a destination and
+   appended the key/value pairs [appends] to arg2 (CallFrame.Arg2Append): the clamp writes the
+   ttl into the frame (lazyCallReq.SetTTL, [clamp_ttl]); without appends that frame is handed to
+   the destination connection as it is, with appends it is re-encoded by fragmentingSend /
+   relayFragmentSender.newFragment ([append_send], the model of C08) from the bytes of the SAME
+   frame.  The result is a code and the frames handed on, as (is it a call req frame?, payload).
+   [lazy_ttl_ms pl] is the ttl field (payload bytes 1..4) of a call req payload.
+   [tfwd_hops hops p]: a chain of relays, each with its configured maximum and its own appends;
+   every hop reads what the previous one sent as a frame ([tfwd_frame_ok]: bytes, at most
+   MaxFramePayloadSize of them). *)
+From Verif Require Import Base.Bytes Base.Wire Model.TypedBuf Model.Crc Model.Codecs Model.RelayLazy Model.RelayAppend
+  Model.TTLAppend Spec.Protocol Proofs.CodecP Proofs.CodecsP Proofs.RelayAppendP Proofs.TTLAppendP.
+
+(* Any configured RelayMaxTimeout, ANY frame payload the relay accepts (one- or multi-frame
+   request, any headers, checksum type, argument sizes), any appended pairs: every call req
+   frame handed to the destination -- forwarded as it is or re-fragmented into one or several
+   frames -- carries the clamped field of C14_relay_ttl: not more than received, in ms not more
+   than the maximum in force. *)
+Theorem C14_relay_ttl_append : forall cfg p appends pl,
+  is_duration cfg -> bytes_ok p = true -> zlen p <= c_MaxFramePayloadSize ->
+  let m := relay_max cfg in
+  In (true, pl) (snd (tfwd_callreq m p appends)) ->
+  let f := lazy_ttl_ms p in
+  is_u32 f /\ lazy_ttl_ms pl = snd (relay_ttl m f) /\
+  lazy_ttl_ms pl <= f /\ lazy_ttl_ms pl * ms_ns <= m /\
+  lazy_ttl_ms pl = (if f * ms_ns >? m then m / ms_ns else f).
+Proof. exact tfwd_ttl_statement. Qed.
+Print Assumptions C14_relay_ttl_append.
+
+(* ... and only the first frame handed on is a call req: the continuation frames a
+   re-fragmentation produces have no ttl field that could differ *)
+Theorem C14_relay_ttl_append_one_callreq : forall cfg p appends,
+  is_duration cfg -> bytes_ok p = true -> zlen p <= c_MaxFramePayloadSize ->
+  let m := relay_max cfg in
+  let out := snd (tfwd_callreq m p appends) in
+  (forall pl, In (true, pl) out ->
+     lazy_ttl_ms pl = snd (relay_ttl m (lazy_ttl_ms p)) /\ is_u32 (lazy_ttl_ms p)) /\
+  (forall f rest, out = f :: rest -> Forall (fun x => fst x = false) rest).
+Proof. exact tfwd_ttl_clamped. Qed.
+Print Assumptions C14_relay_ttl_append_one_callreq.
+
+(* The append path does forward (the theorem above is not vacuous on it): for every call req
+   first frame laid out as the protocol document says (any flags -- so also the first frame of
+   a multi-frame request --, thrift arg scheme, arg2 = encoding of the pairs h, an arg3 chunk)
+   and at least one appended pair within the 16-bit limits, the relay hands on a call req
+   frame, followed by continuation frames only, with the clamped ttl. *)
+Theorem C14_relay_append_forwards : forall cfg flags ttl tr service hdrs ct ckb a1 h a3 a appends ck0,
+  is_duration cfg -> is_u32 ttl ->
+  first_ok tr service hdrs ct ckb a1 (s_theaders h) a3 ->
+  let p := callreq_first flags ttl tr service hdrs ct ckb a1 (s_theaders h) a3 in
+  bytes_ok p = true -> zlen p <= c_MaxFramePayloadSize ->
+  hs_as (hsel_fold hdrs (mkHsel [] [] [] [])) = c_Thrift ->
+  ck_new ct = Some ck0 ->
+  kvs16_ok h -> kvs16_ok (a :: appends) -> zlen h + zlen (a :: appends) <= 65535 ->
+  let m := relay_max cfg in
+  exists pl rest,
+    tfwd_callreq m p (a :: appends) = (0, (true, pl) :: rest) /\
+    Forall (fun x => fst x = false) rest /\
+    lazy_ttl_ms p = ttl /\
+    lazy_ttl_ms pl = snd (relay_ttl m ttl) /\
+    lazy_ttl_ms pl <= ttl /\ lazy_ttl_ms pl * ms_ns <= m.
+Proof. exact tfwd_append_forwards. Qed.
+Print Assumptions C14_relay_append_forwards.
+
+(* Any chain of relays, each appending its own pairs or none: the field of the call req that
+   leaves the last hop is the hops_ttl of C14_relay_chain -- never larger than the field the
+   first hop received, in ms below every maximum on the path. *)
+Theorem C14_relay_chain_append : forall hops p p',
+  Forall (fun h => is_duration (fst h)) hops -> hops <> [] ->
+  tfwd_hops hops p = Some p' ->
+  let f := lazy_ttl_ms p in
+  is_u32 f /\ lazy_ttl_ms p' = hops_ttl (map fst hops) f /\
+  lazy_ttl_ms p' <= f /\
+  Forall (fun h => lazy_ttl_ms p' * ms_ns <= relay_max (fst h)) hops.
+Proof. exact tfwd_hops_ttl. Qed.
+Print Assumptions C14_relay_chain_append.
+
+Example C14_example_append :
+  (* thrift call req, ttl 10 s, arg2 = {k:v}, through a relay with a 50 ms maximum whose host
+     appends {a:bc}: one call req frame with ttl 50 and both pairs; the same with no appends;
+     the first frame of a multi-frame request with a crc32 checksum; three hops *)
+  let p := callreq_first 0 10000 (repeat 0 25) [115] [([97;115], c_Thrift)] 0 [] [109] (s_theaders [([107],[118])]) [120] in
+  let p1 := callreq_first 1 10000 (repeat 0 25) [115] [([97;115], c_Thrift)] 1 [1;2;3;4] [109] (s_theaders []) [120] in
+  let r := tfwd_callreq (relay_max 50000000) p [([97],[98;99])] in
+  let r0 := tfwd_callreq (relay_max 50000000) p [] in
+  let r1 := tfwd_callreq (relay_max 50000000) p1 [([97],[98;99])] in
+  lazy_ttl_ms p = 10000 /\
+  fst r = 0 /\ zlen (snd r) = 1 /\ option_map lazy_ttl_ms (tfwd_first r) = Some 50 /\
+  option_map (fun pl => lz_arg2 pl (snd (lazy_callreq pl))) (tfwd_first r) = Some (s_theaders [([107],[118]); ([97],[98;99])]) /\
+  fst r0 = 0 /\ zlen (snd r0) = 1 /\ option_map lazy_ttl_ms (tfwd_first r0) = Some 50 /\
+  fst r1 = 0 /\ zlen (snd r1) = 1 /\ option_map lazy_ttl_ms (tfwd_first r1) = Some 50 /\
+  option_map (fun pl => nth 0 pl 0) (tfwd_first r1) = Some 1 /\
+  option_map lazy_ttl_ms (tfwd_hops [(1000000000, [([97],[98])]); (50000000, [([99],[100])]); (0, [])] p) = Some 50 /\
+  run_ttl_relay_app ([50000000; 1; 1; 97; 2; 98; 99] ++ put_bytes p) = [50000000; 0; 50].
+Proof. vm_compute. repeat split. Qed.
